@@ -24,6 +24,8 @@ class Scenario:
     idle_window = None
     real_timeout = 60.0
     explore_from_start = False
+    auto_shared = False      # extend `shared` by the names the discovery pass finds on the default schedule
+    discovered_extra = None  # (filled in) the names added that way
 
     def __init__(self, **params):
         self.params = params
@@ -40,7 +42,24 @@ class Scenario:
         return rt.verdict
 
 
+def extend_shared(scn):
+    """The reviewed constant `scn.shared` names the attributes that are shared by design; a change to the
+    library can introduce a *new* attribute that two threads touch. One discovery run of the default schedule
+    (deterministic, so replays see the same set) adds every name of the watched modules that >= 2 controlled
+    threads touched with at least one store. Names seen only in base.py (codec objects, thread-confined) are
+    left to the scenarios that study them (C15)."""
+    if not scn.auto_shared or scn.discovered_extra is not None:
+        return
+    scn.discovered_extra = ()
+    found = discover(scn)
+    extra = sorted(n for n, d in found.items()
+                   if n not in (scn.shared or ()) and d["files"] != ["base.py"])
+    scn.discovered_extra = tuple(extra)
+    scn.shared = frozenset(scn.shared or ()) | set(extra)
+
+
 def execute(scn, choices=None):
+    extend_shared(scn)
     rt = sched.Runtime(choices=choices, max_points=scn.max_points, horizon=scn.horizon,
                        timer_deviation=scn.timer_deviation)
     if scn.idle_window is not None:
